@@ -51,6 +51,10 @@ func accelFamilies(thorough bool) (jobs []job) {
 	add("ALTSET", altSet, "G", profP0, 3)
 	add("ALTSET", altSet, "", profP0, 3)
 	add("ALTSET", altSet, "iG", profP0i, 3)
+	add("ALTSET", altSet, "", profP7, 3)
+	add("SEQ k<=2 anchored", seq2, "", profP7, 3)
+	add("SEQ k<=2 anchored", seq2, "R", profP7, 3)
+	add("SEQ k<=2 anchored", seq2, "i", profP7, 3)
 	add("LOOPALT", loopAltFamily(), "", profP0, 5)
 	add("LOOP3", loop3Family(false), "", profP0, 5)
 	for _, o := range []optSet{"", "G", "R"} {
